@@ -164,7 +164,11 @@ Checks(o) ==
            isCur(x) == LET i == cur(x.r.k) IN i > 0 /\ recs[i].ver = x.r.ver /\ (x.r.ver > 0 => recs[i].val = x.r.val)
        IN IF e.concurrent THEN {} ELSE
           (IF \A x \in Y : isCur(x) THEN {} ELSE {<<sid, e.n, "C18_OnlyCurrent" \o TombTag(CHOOSE x \in Y : ~isCur(x))>>})
-          \cup (IF \A x, y \in Y : (x.r.k = y.r.k /\ isCur(x) /\ isCur(y)) => x = y THEN {} ELSE {<<sid, e.n, "C18_Once">>})
+          \* (two tombstones of one key with EQUAL versions - the version restarted after a rebuilt tree forgot the first - are
+          \*  finding F7 again: the older one is a superseded tombstone kept because the key is absent from the tree)
+          \cup (LET D == {x \in Y : isCur(x) /\ \E y \in Y : y # x /\ y.r.k = x.r.k /\ isCur(y)} IN
+                IF D = {} THEN {}
+                ELSE IF \A x \in D : TombTag(x) = "!F7" THEN {<<sid, e.n, "C18_Once!F7">>} ELSE {<<sid, e.n, "C18_Once">>})
   ELSE IF e.a = "Recovered" THEN
        \* C06 / C07: what a fresh process serves from the directory as the kill left it.
        \* W(k)   = records built for k before the kill (the first e.nrecs records)
